@@ -3,7 +3,9 @@ package c06
 import (
 	"fmt"
 	"sort"
+	"strings"
 
+	wmodel "github.com/metrico/qryn/writer/model"
 	"github.com/metrico/qryn/writer/utils/unmarshal"
 	common "go.opentelemetry.io/proto/otlp/common/v1"
 	"pgregory.net/rapid"
@@ -21,10 +23,15 @@ import (
 type zipkinCase struct {
 	Batch  gen.ZipkinBatch `json:"batch"`
 	BinIDs bool            `json:"bin_ids,omitempty"`
+	// Store/Split: see otlpCase.
+	Store bool `json:"store,omitempty"`
+	Split int  `json:"split,omitempty"`
 }
 
 func genZipkin(rt *rapid.T) zipkinCase {
-	return zipkinCase{Batch: gen.GenZipkinBatch(rt, true), BinIDs: rapid.Bool().Draw(rt, "bin-ids")}
+	c := zipkinCase{Batch: gen.GenZipkinBatch(rt, true), BinIDs: rapid.Bool().Draw(rt, "bin-ids")}
+	c.Store, c.Split = genStore(rt)
+	return c
 }
 
 // zipkinExpect: Zipkin's service name of a span is localEndpoint.serviceName. When that is
@@ -128,6 +135,34 @@ func predZipkin(c zipkinCase, o *evid.Obs) error {
 	if err != nil {
 		return fmt.Errorf("well-formed Zipkin %s batch rejected: %v\nbody: %s", framing, err, trunc(string(body)))
 	}
+	// rows of the whole body as the parser gives them: one side of the field-order relation
+	prows, ptags := rows, tags
+	if c.Store && len(c.Batch.Spans) > 0 {
+		k := 1 + c.Split%len(c.Batch.Spans)
+		var resps []*wmodel.ParserResponse
+		for _, part := range [][]gen.ZipkinSpan{c.Batch.Spans[:k], c.Batch.Spans[k:]} {
+			if len(part) == 0 {
+				continue
+			}
+			pb := c.Batch
+			pb.Spans = part
+			rs, err := parseSpans(parser, pb.Body(false))
+			if err != nil {
+				return fmt.Errorf("well-formed Zipkin %s batch rejected: %v", framing, err)
+			}
+			resps = append(resps, rs...)
+		}
+		var nreq int
+		rows, tags, nreq, err = storeAndDecode(resps)
+		if err != nil {
+			if strings.HasPrefix(err.Error(), "INFRA:") {
+				o.Discard("insert-services-timeout")
+				return nil
+			}
+			return err
+		}
+		o.Tag("via-insert-services", "via-insert-services:requests-in-one-block="+bucket(nreq))
+	}
 	var exp []spanExpect
 	parents, tagged, endpoints, big, short := 0, 0, 0, 0, 0
 	for i, s := range c.Batch.Spans {
@@ -184,7 +219,7 @@ func predZipkin(c zipkinCase, o *evid.Obs) error {
 	if err != nil {
 		return fmt.Errorf("the same batch with permuted object keys is rejected: %v", err)
 	}
-	if d := diffSig(signature(rows, tags), signature(rows2, tags2)); d != "" {
+	if d := diffSig(signature(prows, ptags), signature(rows2, tags2)); d != "" {
 		return fmt.Errorf("permuting JSON object keys changed the rows (%s framing): %s", framing, d)
 	}
 
@@ -238,5 +273,5 @@ func predZipkin(c zipkinCase, o *evid.Obs) error {
 }
 
 func addZipkin(r *evid.Run) {
-	evid.Add(r, evid.Prop[zipkinCase]{Name: "zipkin", Quick: 3000, Thorough: 30000, Gen: genZipkin, Pred: predZipkin, WAL: true})
+	evid.Add(r, evid.Prop[zipkinCase]{Name: "zipkin", Quick: 2000, Thorough: 20000, Gen: genZipkin, Pred: predZipkin, WAL: true})
 }
